@@ -92,6 +92,22 @@ pub fn run(tier: Tier) -> i32 {
             images.push((format!("D/matrix4x4+long-payloads({n})"), b));
         }
     }
+    // a minimal dictionary: one category, one unk entry kind, one word (different data shapes
+    // of the trailing payloads)
+    {
+        let mut f = fams[0].clone();
+        f.base.cats = vec![crate::universe::cat("DEFAULT", 0, 1, 0)];
+        f.base.ranges = vec![];
+        f.base.unk = vec![crate::universe::unk(0, 1, 1, 100, "u1"), crate::universe::unk(0, 0, 0, 7, "u2,x"), crate::universe::unk(0, 2, 1, 9, "u3")];
+        f.base.sys = vec![crate::universe::row("a", 1, 1, 3, "only-word")];
+        let d = f.base.build_real().unwrap_or_else(|e| {
+            println!("MACHINERY: minimal dictionary does not build: {e}");
+            std::process::exit(2)
+        });
+        let (b, _) = write_bytes(&d).unwrap();
+        tail_only.push(0);
+        images.push(("minimal(DEFAULT-only)".to_string(), b));
+    }
     // sanity: the full images are accepted
     for (name, img) in &images {
         if read_class(img, 0) != "Ok" {
